@@ -33,6 +33,9 @@ int vh_log_i; double vh_log_d;
 #ifndef WMAX
 #define WMAX 3
 #endif
+#ifndef SNODE_BREAK
+#define SNODE_BREAK 1
+#endif
 #ifndef RMAX
 #define RMAX 3
 #endif
@@ -100,6 +103,7 @@ static void check_take(int p, int jcol, int bcol)
     /* C03(b): what the worker marks as busy (REAL pxgstrf_mark_busy_descends) covers every descendant
        column that has not been released yet -- those are the columns panel_dfs must skip and
        panel_bmod must wait for */
+#ifdef WITH_MARK_BUSY
     if (sh.pan_status[jcol].type != RELAXED_SNODE) {
         int_t b2 = bcol;
         pxgstrf_mark_busy_descends(p, jcol, etree, &sh, &b2, lbusy[p]);
@@ -110,6 +114,7 @@ static void check_take(int p, int jcol, int bcol)
             }
         vh_assert(b2 >= 0 && b2 <= jcol, "start of the wait chain in range");
     }
+#endif
     if (bcol < jcol) {
         int pb = panel_of(bcol);
         vh_assert(sh.pan_status[pb].state != DONE, "the reported busy descendant is really unfinished");
@@ -196,7 +201,11 @@ VH_MAIN
     {
         int s_ = -1, c;
         for (c = 0; c < NMAX; ++c) if (c < n) {
+#ifdef SYMBOLIC_SUPERNODES
             int brk = vh_int_in(0, 1);
+#else
+            int brk = SNODE_BREAK;   /* 1: every finished column its own supernode, 0: one supernode per panel */
+#endif
             if (sh.pan_status[c].size >= 1 || brk) { ++s_; g_xsup[s_] = c; }
             g_supno[c] = s_; g_xsup_end[s_] = c + 1;
         }
